@@ -3,6 +3,7 @@ package authgrants
 import (
 	"hash"
 	"io"
+	"net"
 	"time"
 
 	"hop.computer/hop/certs"
@@ -253,4 +254,63 @@ func (v *c18TIBuf) Read(p []byte) (int, error) {
 	n := copy(p, v.b[v.off:])
 	v.off += n
 	return n, nil
+}
+
+// A target handles every intent communication of one authgrant tube: what it
+// checks and stores for the SECOND one is the second intent as sent - nothing
+// of the first (certificate names, command text) leaks into it.
+
+type c18Pipe struct {
+	c18TIBuf
+}
+
+func (p *c18Pipe) Close() error                       { return nil }
+func (p *c18Pipe) LocalAddr() net.Addr                { return nil }
+func (p *c18Pipe) RemoteAddr() net.Addr               { return nil }
+func (p *c18Pipe) SetDeadline(t time.Time) error      { return nil }
+func (p *c18Pipe) SetReadDeadline(t time.Time) error  { return nil }
+func (p *c18Pipe) SetWriteDeadline(t time.Time) error { return nil }
+
+func c18SmallIntent(tag string) Intent {
+	i := Intent{GrantType: GrantType(verifPick(tag+"-granttype", int(Shell), int(Command))), TargetPort: 22, StartTime: time.Unix(1000, 0), ExpTime: time.Unix(2000, 0), TargetUsername: "u"}
+	i.TargetSNI = certs.Name{Label: []byte("t"), Type: certs.TypeDNSName}
+	i.DelegateCert.Version = 1
+	i.DelegateCert.Type = certs.Leaf
+	i.DelegateCert.IssuedAt, i.DelegateCert.ExpiresAt = time.Unix(1000, 0), time.Unix(2000, 0)
+	nn := verifPick(tag+"-cert-names", 0, 1)
+	for k := 0; k < nn; k++ {
+		i.DelegateCert.IDChunk.Blocks = append(i.DelegateCert.IDChunk.Blocks, certs.Name{Label: verifBytes(tag+"-cert-name", 1), Type: certs.TypeDNSName})
+	}
+	if i.GrantType == Command {
+		i.AssociatedData.CommandGrantData.Cmd = verifString(tag+"-cmd", 1)
+	}
+	return i
+}
+
+//verif:prop C18
+//verif:stub golang.org/x/crypto/sha3.New256 = c18FakeSHA3
+//verif:bounds two consecutive intent communications on one target instance: each a shell or command intent, delegate certificate with 0..1 names of one symbolic byte, command of one symbolic byte; real codecs on both sides; target policy accepts
+//verif:cover both-stored
+//verif:timeout 600
+func VH_C18_target_decodes_each_intent_of_a_connection_on_its_own() {
+	first, second := c18SmallIntent("first"), c18SmallIntent("second")
+	conn := &c18Pipe{}
+	wire := &c18TIBuf{}
+	verifAssert(WriteIntentCommunication(wire, first) == nil && WriteIntentCommunication(wire, second) == nil, "C18: both intents are encoded")
+	conn.b = wire.b
+	var stored []Intent
+	t := &targetInstance{principalConn: conn,
+		checkIntent:  func(i Intent, c *certs.Certificate) error { return nil },
+		addAuthGrant: func(i *Intent) error { stored = append(stored, *i); return nil }}
+	verifAssert(t.handleIntentCommunication() == nil && t.handleIntentCommunication() == nil, "C18: both intent communications are handled")
+	verifAssert(len(stored) == 2, "C18: both grants are stored")
+	if len(stored) != 2 {
+		return
+	}
+	verifCover("both-stored")
+	c18IntentEq(&stored[0], &first, "C18: first intent stored by the target")
+	c18IntentEq(&stored[1], &second, "C18: second intent stored by the target (nothing of the first one leaks into it)")
+	if second.GrantType != Command {
+		verifAssert(stored[1].AssociatedData.CommandGrantData.Cmd == "", "C18: a shell intent that follows a command intent carries no command")
+	}
 }
